@@ -378,7 +378,7 @@ class FmtStr:
         the original FmtStr at start and end.
         If end is provided, new_str will replace the substring self.s[start:end-1].
         """
-        if len(new_str) == 0:
+        if len(new_str) == 0 and (end is None or end <= start):
             return self
         new_fs = new_str if isinstance(new_str, FmtStr) else fmtstr(new_str)
         assert len(new_fs.chunks) > 0, (new_fs.chunks, new_fs)
